@@ -63,15 +63,11 @@ theorem frame_run (c : Cfg) (q : Nat) (ops : List Op) (s : St) (h : Inv s) (hq :
     rw [run, ih (step c s op).1 (inv_step c s op h) (by omega) hr]
     exact frame_step c s op h q hq h1 h2 hg h3
 
-/-- **restore**, for every persisting device at once: when a ball ends and the next ball starts (next player, next ball
-of the same player, or an extra ball), each device of the game mode presents `load` of exactly the state stored under
-its key in the dictionary of the player who is now up — which by `frame_run` is what it presented at the end of that
-player's previous ball — and the fresh state if that player never had it.  (`load` is the identity for logic blocks,
-shot/profile states and persisted enable flags; the documented started→stopped rule for achievements; the start value
-for timers.) -/
-theorem restore (c : Cfg) (ha : c.autoStart = true) (hk : KeysOK c) (s : St) (h : Inv s) (hne : s.players ≠ [])
-    (hg : (step c s .drain).1.players ≠ []) (d : Dev) (hd : d ∈ c.devs) :
-    view (step c s .drain).1 d = some (loaded d (varsOf s (step c s .drain).1.cur)) := by
+/-- the ball end proper (`drainStep`: the game mode is not in a held stop, or the hold has just been released): each
+device presents `load` of what the player now up has stored, or its fresh state -/
+theorem restore_drainStep (c : Cfg) (ha : c.autoStart = true) (hk : KeysOK c) (s : St) (h : Inv s) (hne : s.players ≠ [])
+    (hg : (drainStep c s).1.players ≠ []) (d : Dev) (hd : d ∈ c.devs) :
+    view (drainStep c s).1 d = some (loaded d (varsOf s (drainStep c s).1.cur)) := by
   have hcur := h.2 hne
   have hlen : 0 < s.players.length := by
     cases hp : s.players with
@@ -97,7 +93,7 @@ theorem restore (c : Cfg) (ha : c.autoStart = true) (hk : KeysOK c) (s : St) (h 
     rw [hm, loadAll_get _ _ hk.1 d hd]
     unfold loaded
     rw [get_put_other _ _ _ _ (Ne.symm hkd)]
-  simp only [step, if_neg hne, ballStart, ha, if_true] at hg ⊢
+  simp only [drainStep, if_neg hne, ballStart, ha, if_true] at hg ⊢
   split
   · rw [modeStart_cur, setOn_cur]
     exact key _ _ _ _ hcur (Ne.symm (hk.2 d hd).2)
@@ -112,6 +108,75 @@ theorem restore (c : Cfg) (ha : c.autoStart = true) (hk : KeysOK c) (s : St) (h 
       show (if s.cur + 1 < s.players.length then s.cur + 1 else 0) < s.players.length
       split <;> omega
 
+/-- **restore**, for every persisting device at once: when a ball ends (the game mode not being in a held stop) and the
+next ball starts (next player, next ball of the same player, or an extra ball), each device of the game mode presents
+`load` of exactly the state stored under its key in the dictionary of the player who is now up — which by `frame_run` is
+what it presented at the end of that player's previous ball — and the fresh state if that player never had it.  (`load`
+is the identity for logic blocks, shot/profile states and persisted enable flags; the documented started→stopped rule
+for achievements; the start value for timers.) -/
+theorem restore (c : Cfg) (ha : c.autoStart = true) (hk : KeysOK c) (s : St) (h : Inv s) (hne : s.players ≠ [])
+    (hh : s.hold = false) (hg : (step c s .drain).1.players ≠ []) (d : Dev) (hd : d ∈ c.devs) :
+    view (step c s .drain).1 d = some (loaded d (varsOf s (step c s .drain).1.cur)) := by
+  have e : step c s .drain = drainStep c s := by simp [step, hh]
+  rw [e] at hg ⊢
+  exact restore_drainStep c ha hk s h hne hg d hd
+
+/-- **a held stop keeps the turn**: while the game mode is stopping with its `mode_<n>_stopping` queue event held (the
+stop was requested before the ball drained), a ball end changes nothing but the fact that it is waiting: no player's
+dictionary, not the player who is up, not the binding of the devices — the game does not move on to the next player
+while the old mode is still active; and (over all histories, by `pointer_invariant`) the devices of a mode in a held
+stop still point at the player who is up.  Stop and start requests meanwhile do nothing. -/
+theorem held_stop_keeps_turn (c : Cfg) (s : St) (hh : s.hold = true) :
+    (∀ op, op = .drain ∨ op = .drainPre →
+      (step c s op).1.players = s.players ∧ (step c s op).1.cur = s.cur ∧ (step c s op).1.dev = s.dev ∧
+      (step c s op).1.hold = true ∧ (step c s op).1.ending = true ∧ (step c s op).2 = []) ∧
+    step c s .modeStop = (s, []) ∧ (s.dev ≠ none → step c s .modeStart = (s, []) ∨ s.players = []) := by
+  refine ⟨fun op hop => ?_, by simp [step, hh], fun hd => ?_⟩
+  · rcases hop with e | e <;> subst e <;> simp [step, hh]
+  · cases hdev : s.dev with
+    | none => exact absurd hdev hd
+    | some p => by_cases hp : s.players = []
+                · exact Or.inr hp
+                · left; simp [step, hp, hdev]
+
+/-- the hold invariant over all histories from power-up: a held stop belongs to a running mode (so with
+`pointer_invariant`: its devices point at the player who is up), and a ball end only ever waits behind a held stop. -/
+theorem hold_invariant (c : Cfg) (ops : List Op) :
+    ((run c {} ops).hold = true → (run c {} ops).dev = some (run c {} ops).cur) ∧
+    ((run c {} ops).ending = true → (run c {} ops).hold = true) := by
+  have : ∀ (s : St), HoldInv s → HoldInv (run c s ops) := by
+    induction ops with
+    | nil => exact fun s h => h
+    | cons op rest ih => exact fun s h => ih _ (holdInv_step c s op h)
+  have hh := this {} ⟨fun h => (by cases h), fun h => (by cases h)⟩
+  have hi := pointer_invariant c ops
+  refine ⟨fun h => ?_, hh.2⟩
+  rcases hi.1 with e | e
+  · exact absurd e (hh.1 h)
+  · exact e
+
+/-- **the release finishes the stop, then the ball ends**: releasing the held queue event stops the mode (nothing points
+into any player any more); a ball end that was waiting behind it then takes place exactly as a ball end of a stopped
+mode would — in particular (`restore_after_release`) the next ball's devices are bound to and loaded from the player
+who is then up, never the previous one. -/
+theorem release_finishes_stop (c : Cfg) (s : St) (hh : s.hold = true) :
+    (s.ending = false → (step c s .release).1.dev = none ∧ (step c s .release).1.players = s.players ∧
+       (step c s .release).1.cur = s.cur ∧ (step c s .release).1.hold = false ∧ (step c s .release).2 = []) ∧
+    (s.ending = true → step c s .release = step c { s with hold := false, ending := false, dev := none } .drain) := by
+  refine ⟨fun he => by simp [step, hh, he], fun he => by simp [step, hh, he]⟩
+
+/-- **restore after a released hold**: when the ball end that waited behind a held stop takes place, each device of the
+game mode presents `load` of what the player who is now up has stored under its key (or its fresh state) — the previous
+player's state is not carried along although their mode was still active when the ball drained. -/
+theorem restore_after_release (c : Cfg) (ha : c.autoStart = true) (hk : KeysOK c) (s : St) (h : Inv s)
+    (hne : s.players ≠ []) (hh : s.hold = true) (he : s.ending = true)
+    (hg : (step c s .release).1.players ≠ []) (d : Dev) (hd : d ∈ c.devs) :
+    view (step c s .release).1 d = some (loaded d (varsOf s (step c s .release).1.cur)) := by
+  have e : step c s .release = drainStep c { s with hold := false, ending := false, dev := none } := by
+    simp [step, hh, he]
+  rw [e] at hg ⊢
+  exact restore_drainStep c ha hk { s with hold := false, ending := false, dev := none } ⟨Or.inl rfl, h.2⟩ hne hg d hd
+
 /-- **fresh game**: a game started on an idle machine does not depend on anything an earlier game left behind, and
 an accepted player joins with exactly the configured initial dictionary (index, number, the `player_vars` section,
 score 0) while everybody else's dictionary stays as it is; and every device whose key is not among those variables
@@ -124,7 +189,7 @@ theorem fresh_game (c : Cfg) (s s' : St) (h : s.players = []) (h' : s'.players =
                (step c t .addPlayer).1.players = t.players ++ [newVars c t.players.length]) ∧
     (∀ i k v, (k, v) ∈ c.initVars → (k, v) ∈ newVars c i) ∧
     (∀ (d : Dev) i, get (newVars c i) d.key = none → loaded d (newVars c i) = d.fresh) := by
-  refine ⟨by cases ha : c.autoStart <;> simp [step, h, h', turnStart, ballStart, modeStart, setOn, varsOf, ha], fun t => ?_, fun i k v hm => by simp [newVars, hm],
+  refine ⟨by cases ha : c.autoStart <;> simp [step, h, h', turnStart, ballStart, ballStartEvs, modeStartEvs, modeStart, setOn, varsOf, ha], fun t => ?_, fun i k v hm => by simp [newVars, hm],
     fun d i hn => by unfold loaded; rw [hn]⟩
   simp only [step]
   split
@@ -173,12 +238,13 @@ theorem restore_on_mode_start (c : Cfg) (hk : KeysOK c) (s : St) (hne : s.player
 /-- **time**: while no game mode runs (between a ball's end and the next start of the mode, after a stop request, after
 the game) the passing of any amount of time changes nothing at all — no timer of a stopped mode ticks or resumes from a
 pause; while it runs, time changes the dictionary of the player who is up and nobody else's, and neither the pointer
-nor the turn. -/
+nor the turn, and every `player_<mode>_<timer>_tick` event a tick posts carries the number of the player who is up. -/
 theorem time_passing (c : Cfg) (s : St) (n : Nat) :
     (s.dev = none → step c s (.wait n) = (s, [])) ∧
     (Inv s → ∀ q, q ≠ s.cur → (step c s (.wait n)).1.players[q]? = s.players[q]?) ∧
-    (step c s (.wait n)).1.cur = s.cur ∧ (step c s (.wait n)).1.dev = s.dev ∧ (step c s (.wait n)).2 = [] := by
-  refine ⟨fun h => by simp [step, h], fun h q hq => ?_, ?_, ?_, ?_⟩
+    (step c s (.wait n)).1.cur = s.cur ∧ (step c s (.wait n)).1.dev = s.dev ∧
+    (Inv s → ∀ e ∈ (step c s (.wait n)).2, e.num = s.cur + 1) := by
+  refine ⟨fun h => by simp [step, h], fun h q hq => ?_, ?_, ?_, fun h => ?_⟩
   · simp only [step]
     split
     · rfl
@@ -186,21 +252,70 @@ theorem time_passing (c : Cfg) (s : St) (n : Nat) :
       have := dev_eq_cur h hp
       subst this
       exact modify_get_other _ _ _ _ hq
-  all_goals (simp only [step]; split <;> rfl)
+  · simp only [step]; split <;> rfl
+  · simp only [step]; split <;> rfl
+  · simp only [step]
+    split
+    · intro e he; simp at he
+    · rename_i p hp
+      have := dev_eq_cur h hp
+      subst this
+      exact elapseEvs_num _ _ _ _ _
 
-/-- **a stopped mode is inert**: after a stop request, after the game has ended, and after a ball has drained when the
-mode does not start with the ball, nothing points into any player any more, so (by `time_passing`) no amount of time
+/-- **device-variable events belong to the player who is up**: every `player_<var>` event posted because a device wrote
+its state (a timer's tick variable: at load, on add / subtract / jump / reset, on every tick) or because a ball ended and
+the next one started (`ball`, `extra_balls`, the devices' loads) carries the number of the player who is up when the
+request has been handled — for time passing, control events and start requests that is the player who was up before. -/
+theorem device_events_owner (c : Cfg) (s : St) (h : Inv s) (op : Op)
+    (hop : (∃ n, op = .wait n) ∨ (∃ d code, op = .dev d code) ∨ op = .modeStart ∨ op = .drain ∨ op = .release) :
+    ∀ e ∈ (step c s op).2, e.num = (step c s op).1.cur + 1 := by
+  rcases hop with ⟨n, e⟩ | ⟨d, code, e⟩ | e | e | e <;> subst e
+  · rw [(time_passing c s n).2.2.1]; exact (time_passing c s n).2.2.2.2 h
+  · simp only [step]
+    split
+    · intro e he; simp at he
+    · rename_i p hp
+      have := dev_eq_cur h hp
+      subst this
+      split
+      · intro e he; simp at he
+      · split
+        · intro e he; simp at he
+        · exact devEv_num _ _ _ _
+  · simp only [step]
+    split
+    · intro e he; simp at he
+    · split
+      · intro e he; simp at he
+      · rw [modeStart_cur]; exact loadEvs_num _ _ _
+  · simp only [step]
+    split
+    · intro e he; simp at he
+    · exact drainStep_num c s
+  · simp only [step]
+    split
+    · split
+      · exact drainStep_num c _
+      · intro e he; simp at he
+    · intro e he; simp at he
+
+/-- **a stopped mode is inert**: after a stop request (not held), after the release of a held stop, after the game has
+ended, and after a ball has drained when the mode does not start with the ball, nothing points into any player any more, so (by `time_passing`) no amount of time
 changes anybody's variables — in particular a timer that was in a timed pause when its mode stopped cannot come back
 to life bound to the previous player. -/
 theorem stopped_mode_is_inert (c : Cfg) (s : St) (n : Nat) :
-    (∀ op, op = .modeStop ∨ op = .endGame ∨ (op = .drain ∧ c.autoStart = false ∧ s.players ≠ []) →
+    (∀ op, (op = .modeStop ∧ s.hold = false) ∨ op = .endGame ∨ (op = .release ∧ s.hold = true ∧ s.ending = false) ∨
+        (op = .drain ∧ c.autoStart = false ∧ s.players ≠ [] ∧ s.hold = false) →
       (step c s op).1.dev = none ∧ step c (step c s op).1 (.wait n) = ((step c s op).1, [])) := by
   intro op hop
   have hd : (step c s op).1.dev = none := by
-    rcases hop with e | e | ⟨e, ha, hne⟩ <;> subst e
+    rcases hop with ⟨e, hh⟩ | e | ⟨e, hh, he⟩ | ⟨e, ha, hne, hh⟩ <;> subst e
+    · simp [step, hh]
     · rfl
-    · rfl
-    · simp only [step, if_neg hne, turnStart, ballStart, ha]
+    · simp [step, hh, he]
+    · have e : step c s .drain = drainStep c s := by simp [step, hh]
+      rw [e]
+      simp only [drainStep, if_neg hne, turnStart, ballStart, ha]
       split
       · rfl
       · split <;> rfl
@@ -242,7 +357,10 @@ theorem machine_scope (c : Cfg) (s : St) (k : String) (v : Val) (d : Int) :
     | startGame =>
       cases ha : c.autoStart <;> simp only [step] <;> split <;> simp [turnStart, ballStart, modeStart, setOn, ha]
     | drain =>
-      cases ha : c.autoStart <;> simp only [step] <;> repeat' split
+      cases ha : c.autoStart <;> simp only [step, drainStep] <;> repeat' split
+      all_goals simp [turnStart, ballStart, modeStart, setOn, ha]
+    | release =>
+      cases ha : c.autoStart <;> simp only [step, drainStep] <;> repeat' split
       all_goals simp [turnStart, ballStart, modeStart, setOn, ha]
     | drainPre =>
       cases ha : c.autoStart <;> simp only [step] <;> repeat' split
@@ -292,6 +410,31 @@ example :
     s3.cur = 0 ∧ view s3 acc = some (.ablk [true, false, false] true false) ∧ view s3 tm = some (.int 0) ∧
     get (varsOf s3 1) "ap_state" = some (.ablk [false, true, false] true false) ∧
     get (varsOf s3 1) "m1_tm_tick" = some (.int 1) := by decide
+
+/-- a held stop across a drain: player 1 advances a shot, the game mode is asked to stop with its `mode_<n>_stopping`
+queue event held, the ball drains — player 1 is still up, the mode still bound to them, a further hit still counts for
+player 1; on the release the mode stops, the ball ends, player 2 is up with a fresh shot and player 1 keeps 2. -/
+example :
+    let shot : Dev := plainDev "shot_sh1" (.int 0) id fun _ v => match v with | .int s => .int (s + 1) | x => x
+    let c : Cfg := { initVars := [("pa", .int 5)], ballsPerGame := 2, devs := [shot] }
+    let s1 := run c {} [.startGame, .addPlayer, .dev 0 0, .modeStopHold, .drain]
+    let s2 := run c s1 [.dev 0 0, .modeStop, .modeStart]
+    let s3 := run c s2 [.release]
+    s1.hold = true ∧ s1.ending = true ∧ s1.cur = 0 ∧ s1.dev = some 0 ∧ view s2 shot = some (.int 2) ∧ s2.dev = some 0 ∧
+    Inv s3 ∧ s3.cur = 1 ∧ s3.dev = some 1 ∧ s3.hold = false ∧ view s3 shot = some (.int 0) ∧
+    get (varsOf s3 0) "shot_sh1" = some (.int 2) := by decide
+
+/-- device-variable events are really produced: a timer running from the start (a tick every 4 units) posts its load
+event (new variable, value 0) with the ball start and one `player_m1_tm_tick` event per tick, value / previous value /
+change / the number of the player who is up; after the turn change they carry player 2's number. -/
+example :
+    let tm : Dev := timerDev "m1_tm_tick" ⟨0, true, none, 4, 8⟩
+    let c : Cfg := { ballsPerGame := 3, devs := [tm] }
+    let s1 := run c {} [.startGame, .addPlayer]
+    (step c {} .startGame).2.getLast? = some ⟨"m1_tm_tick", .int 0, .int 0, .int 0, 1⟩ ∧
+    (step c s1 (.wait 9)).2 = [⟨"m1_tm_tick", .int 1, .int 0, .int 1, 1⟩, ⟨"m1_tm_tick", .int 2, .int 1, .int 1, 1⟩] ∧
+    (step c s1 (.dev 0 1)).2 = [⟨"m1_tm_tick", .int 7, .int 0, .int 7, 1⟩] ∧
+    (step c (run c s1 [.drain]) (.wait 4)).2 = [⟨"m1_tm_tick", .int 1, .int 0, .int 1, 2⟩] := by decide
 
 
 end MpfVerif.C11
